@@ -146,6 +146,57 @@ pub fn run(a: &Args) {
             }
         }
     }
+    // deterministic work measure: instructions executed by the child under valgrind/callgrind
+    let vg = std::process::Command::new("valgrind").arg("--version").output().map(|o| o.status.success()).unwrap_or(false);
+    if !vg {
+        eprintln!("vh cost: valgrind is not available");
+        std::process::exit(2);
+    }
+    let kibs: Vec<usize> = if quick { vec![32, 64, 128, 256] } else { vec![32, 64, 128, 256, 512, 1024] };
+    let mut jobs: Vec<(usize, &'static str, usize, &'static str)> = vec![];
+    for (fi, (fam, unit)) in BOMB_FAMILIES.iter().enumerate() {
+        for mode in ["sync", "async"] {
+            if mode == "async" && fi % 2 == 1 && quick {
+                continue;
+            }
+            for k in &kibs {
+                jobs.push((fi, fam, (k * 1024 / unit).max(1), mode));
+            }
+        }
+    }
+    let jobs = std::sync::Arc::new(std::sync::Mutex::new(jobs.into_iter().enumerate().collect::<Vec<_>>()));
+    let results = std::sync::Arc::new(std::sync::Mutex::new(Vec::<(usize, serde_json::Value)>::new()));
+    let mut hs = vec![];
+    for _ in 0..8 {
+        let (jobs, results, exe) = (jobs.clone(), results.clone(), exe.clone());
+        hs.push(std::thread::spawn(move || loop {
+            let job = jobs.lock().unwrap().pop();
+            let Some((idx, (_fi, fam, n, mode))) = job else { break };
+            let o = std::process::Command::new("valgrind")
+                .args(["--tool=callgrind", "--callgrind-out-file=/dev/null"])
+                .arg(&exe)
+                .args(["cost-child", "--family", fam, "--n", &n.to_string(), "--mode", mode])
+                .output()
+                .expect("spawn valgrind");
+            let err = String::from_utf8_lossy(&o.stderr).to_string();
+            let ir: u64 = err.lines().find(|l| l.contains("Collected :")).and_then(|l| l.split(':').nth(1)).and_then(|x| x.trim().parse().ok()).unwrap_or(0);
+            let child: serde_json::Value = serde_json::from_str(String::from_utf8_lossy(&o.stdout).trim()).unwrap_or(json!({"kib_in": 0, "status": "crash"}));
+            results.lock().unwrap().push((idx, json!({"ev": "instr", "family": fam, "n": n, "mode": mode, "kib_in": child["kib_in"], "status": child["status"],
+                "kinstr": ir / 1000, "measured": ir > 0})));
+        }));
+    }
+    for h in hs {
+        let _ = h.join();
+    }
+    let mut res = results.lock().unwrap().clone();
+    res.sort_by_key(|r| r.0);
+    for (_, ev) in res {
+        if samples.len() < 6 {
+            samples.push(ev.clone());
+        }
+        sink.emit(&ev, &json!({"how": format!("valgrind --tool=callgrind vh cost-child --family {} --n {} --mode {}", ev["family"], ev["n"], ev["mode"])}));
+        runs += 1;
+    }
     let events = sink.events;
     sink.finish();
     write_run(&out, &json!({"prop": "C15", "evaluations": runs, "events": events, "distinct_inputs": runs, "samples": samples}));
